@@ -3,6 +3,7 @@ package spv
 import (
 	"bytes"
 	"fmt"
+	"os"
 	"testing"
 
 	"github.com/gogpu/naga/spirv"
@@ -13,16 +14,20 @@ import (
 type execCase struct {
 	name string
 	src  string
-	wg   [3]uint32              // dispatch (default 1,1,1)
-	in   func() map[Key][]byte  // fresh buffers
-	want map[Key][]byte         // expected final contents (whole buffer)
+	wg   [3]uint32             // dispatch (default 1,1,1)
+	in   func() map[Key][]byte // fresh buffers
+	want map[Key][]byte        // expected final contents (whole buffer)
 	// expected deviations (suspected naga defects): substring that must appear in
 	// RunResult.Poison; the buffer comparison is skipped for such cases.
 	wantPoison string
 	note       string
+	// knownBad marks a reproducer of a suspected naga defect: the run must NOT produce the
+	// WGSL-defined result cleanly (wrong bytes, poison, trap or validator issue).  When it
+	// suddenly does, the test fails so that the list gets updated.
+	knownBad bool
 }
 
-func cat(bs ...[]byte) []byte { return bytes.Join(bs, nil) }
+func cat(bs ...[]byte) []byte   { return bytes.Join(bs, nil) }
 func fill(n int, b byte) []byte { return bytes.Repeat([]byte{b}, n) }
 
 const hdrOA = `
@@ -50,9 +55,9 @@ func io(out []byte, in []byte) func() map[Key][]byte {
 	}
 }
 
-func runCase(t *testing.T, c execCase, ver spirv.Version, reverse bool) {
+func runCase(t *testing.T, c execCase, opts spirv.Options, reverse bool) {
 	t.Helper()
-	bin, err := compileWGSL(c.src, ver, true)
+	bin, err := compileWGSLOpts(c.src, opts)
 	if err != nil {
 		t.Fatalf("compile: %v", err)
 	}
@@ -60,8 +65,9 @@ func runCase(t *testing.T, c execCase, ver spirv.Version, reverse bool) {
 	if err != nil {
 		t.Fatalf("parse: %v", err)
 	}
-	if is := Validate(m); len(is) != 0 {
-		t.Errorf("validator: %v", is)
+	issues := Validate(m)
+	if len(issues) != 0 && !c.knownBad {
+		t.Errorf("validator: %v", issues)
 	}
 	bufs := c.in()
 	wg := c.wg
@@ -72,8 +78,24 @@ func runCase(t *testing.T, c execCase, ver spirv.Version, reverse bool) {
 	if err != nil {
 		t.Fatalf("run: %v", err)
 	}
+	if c.knownBad {
+		bad := len(issues) != 0 || res.Trap != "" || len(res.Poison) != 0
+		for key, want := range c.want {
+			if !bytes.Equal(bufs[key], want) {
+				bad = true
+				t.Logf("known defect (%s): buffer %v got %s want %s", c.note, key, dump(bufs[key]), dump(want))
+			}
+		}
+		if len(issues) != 0 || res.Trap != "" || len(res.Poison) != 0 {
+			t.Logf("known defect (%s): issues=%v trap=%q poison=%v", c.note, issues, res.Trap, res.Poison)
+		}
+		if !bad {
+			t.Errorf("known defect no longer reproduces: %s", c.note)
+		}
+		return
+	}
 	if res.Trap != "" {
-		t.Fatalf("trap: %s\n%s", res.Trap, m.Disassemble())
+		t.Fatalf("trap: %s\n%s", res.Trap, dumpIf(m))
 	}
 	if c.wantPoison != "" {
 		found := false
@@ -88,17 +110,22 @@ func runCase(t *testing.T, c execCase, ver spirv.Version, reverse bool) {
 		return
 	}
 	if len(res.Poison) != 0 {
-		t.Errorf("poison: %v\n%s", res.Poison, m.Disassemble())
+		t.Errorf("poison: %v\n%s", res.Poison, dumpIf(m))
 	}
 	for key, want := range c.want {
 		got := bufs[key]
 		if !bytes.Equal(got, want) {
 			t.Errorf("buffer %v:\n got  %s\n want %s", key, dump(got), dump(want))
-			if testing.Verbose() {
-				t.Log(m.Disassemble())
-			}
+			t.Log(dumpIf(m))
 		}
 	}
+}
+
+func dumpIf(m *Module) string {
+	if os.Getenv("SPV_DUMP") != "" {
+		return m.Disassemble()
+	}
+	return "(set SPV_DUMP=1 for the disassembly)"
 }
 
 func dump(b []byte) string {
@@ -116,9 +143,10 @@ func TestExec(t *testing.T) {
 	for _, c := range execCases() {
 		c := c
 		t.Run(c.name, func(t *testing.T) {
-			runCase(t, c, spirv.Version1_3, false)
-			runCase(t, c, spirv.Version1_0, true)
-			runCase(t, c, spirv.Version1_5, false)
+			runCase(t, c, spirv.Options{Version: spirv.Version1_3, Debug: true}, false)
+			runCase(t, c, spirv.Options{Version: spirv.Version1_0}, true)
+			runCase(t, c, spirv.Options{Version: spirv.Version1_5, Debug: true}, false)
+			runCase(t, c, spirv.Options{Version: spirv.Version1_4, ForceLoopBounding: true}, true)
 		})
 	}
 }
